@@ -115,6 +115,33 @@ fn short(s: &str) -> String {
     }
 }
 
+/// Second observation channel: the built value and the value assembled from the model through
+/// struct literals must encode alike (both fail, or both give the same bytes).  Both sides are
+/// coset's encoder, so this says nothing about the encoding itself - only that the builder did not
+/// leave state behind that the public fields do not show.
+fn enc_obs<T: CborSerializable>(built: T, from_model: T) -> Option<Violation> {
+    let a = guarded(move || built.to_vec());
+    let b = guarded(move || from_model.to_vec());
+    match (a, b) {
+        (Ok(Ok(x)), Ok(Ok(y))) => {
+            if x != y {
+                Some(Violation::new(
+                    "C19.hidden-state",
+                    format!("all public fields equal the model, but the built value encodes as {} and the same value from struct literals as {}", crate::util::hex_short(&x), crate::util::hex_short(&y)),
+                ))
+            } else {
+                None
+            }
+        }
+        (Ok(Err(_)), Ok(Err(_))) => None,
+        (Err(_), Err(_)) => None,
+        (a, b) => Some(Violation::new(
+            "C19.hidden-state",
+            format!("all public fields equal the model, but encoding differs in outcome: built {:?}, from struct literals {:?}", a.map(|r| r.is_ok()), b.map(|r| r.is_ok())),
+        )),
+    }
+}
+
 fn cmp_protected(name: &str, want: &MProtected, got: &MProtected) -> Option<Violation> {
     if got.original.is_some() && want.original.is_none() {
         return Some(Violation::new(
@@ -157,8 +184,50 @@ fn cmp_header(prefix: &str, want: &MHeader, got: &MHeader) -> Option<Violation> 
 // generation
 // ------------------------------------------------------------------------------------------
 
+/// Every value of a registry in [-70000, 70000], found by scanning `from_i64` once.
+fn registry<T: EnumI64>(cell: &'static std::sync::OnceLock<Vec<i64>>) -> &'static [i64] {
+    cell.get_or_init(|| (-70_000i64..=70_000).filter(|i| T::from_i64(*i).is_some()).collect())
+}
+macro_rules! reg_list {
+    ($name:ident, $t:ty) => {
+        fn $name() -> &'static [i64] {
+            static C: std::sync::OnceLock<Vec<i64>> = std::sync::OnceLock::new();
+            registry::<$t>(&C)
+        }
+    };
+}
+reg_list!(all_algs, iana::Algorithm);
+reg_list!(all_header_params, iana::HeaderParameter);
+reg_list!(all_content_formats, iana::CoapContentFormat);
+reg_list!(all_key_types, iana::KeyType);
+reg_list!(all_key_ops, iana::KeyOperation);
+reg_list!(all_curves, iana::EllipticCurve);
+reg_list!(all_claim_names, iana::CwtClaimName);
+
 fn a_bytes(rng: &mut Rng) -> Arg {
+    if rng.chance(1, 8) {
+        // any length, in particular the usual key / coordinate / nonce sizes
+        let n = match rng.below(3) {
+            0 => *rng.pick(&[8usize, 12, 16, 20, 28, 32, 48, 56, 57, 64, 65, 66, 128, 132]),
+            _ => rng.log_uniform(1, 5000) as usize,
+        };
+        return Arg::B(pat(n, 21));
+    }
     Arg::B(bytes_palette()[pick_bytes_idx(rng)].clone())
+}
+fn a_label(rng: &mut Rng) -> Arg {
+    match rng.below(4) {
+        0 => Arg::I(rng.range(0, 70) as i128 - 10),
+        1 => Arg::I((rng.next_u64() as i64 >> rng.below(56)) as i128),
+        _ => Arg::I(*rng.pick(LABELS) as i128),
+    }
+}
+fn a_reg(rng: &mut Rng, pal: &[i64], all: &[i64]) -> Arg {
+    if rng.chance(1, 3) && !all.is_empty() {
+        Arg::I(*rng.pick(all) as i128)
+    } else {
+        Arg::I(*rng.pick(pal) as i128)
+    }
 }
 fn a_small(rng: &mut Rng) -> Arg {
     Arg::B(bytes_palette()[pick_small_bytes_idx(rng)].clone())
@@ -170,6 +239,11 @@ fn a_hdr(rng: &mut Rng) -> Arg {
     Arg::I(pick_header_idx(rng) as i128)
 }
 fn a_val(rng: &mut Rng) -> Arg {
+    if rng.chance(1, 3) {
+        // arbitrary shape, carried in the trace as its CBOR encoding
+        let v = gen_any_value(rng, 0);
+        return Arg::B(crate::refcbor::encode(&v.to_item()));
+    }
     Arg::I(rng.below(value_palette().len()) as i128)
 }
 fn a_from(rng: &mut Rng, xs: &[i64]) -> Arg {
@@ -188,21 +262,21 @@ fn gen_op(builder: &str, rng: &mut Rng) -> Step {
     match builder {
         "Header" => match rng.below(11) {
             0 => o("key_id", vec![a_bytes(rng)]),
-            1 => o("algorithm", vec![a_from(rng, ALGS)]),
-            2 => o("add_critical", vec![a_from(rng, HEADER_PARAMS)]),
+            1 => o("algorithm", vec![a_reg(rng, ALGS, all_algs())]),
+            2 => o("add_critical", vec![a_reg(rng, HEADER_PARAMS, all_header_params())]),
             3 => {
                 if rng.bool() {
-                    o("add_critical_label", vec![Arg::S("int".into()), a_from(rng, HEADER_PARAMS)])
+                    o("add_critical_label", vec![Arg::S("int".into()), a_reg(rng, HEADER_PARAMS, all_header_params())])
                 } else {
                     o("add_critical_label", vec![Arg::S("text".into()), a_text(rng)])
                 }
             }
-            4 => o("content_format", vec![a_from(rng, CONTENT_FORMATS)]),
+            4 => o("content_format", vec![a_reg(rng, CONTENT_FORMATS, all_content_formats())]),
             5 => o("content_type", vec![a_text(rng)]),
-            6 => o("iv", vec![a_small(rng)]),
-            7 => o("partial_iv", vec![a_small(rng)]),
+            6 => o("iv", vec![if rng.chance(1, 6) { a_bytes(rng) } else { a_small(rng) }]),
+            7 => o("partial_iv", vec![if rng.chance(1, 6) { a_bytes(rng) } else { a_small(rng) }]),
             8 => o("add_counter_signature", gen_sig_args(rng)),
-            9 => o("value", vec![a_from(rng, LABELS), a_val(rng)]),
+            9 => o("value", vec![a_label(rng), a_val(rng)]),
             _ => o("text_value", vec![a_text(rng), a_val(rng)]),
         },
         "CoseSignature" => match rng.below(3) {
@@ -287,17 +361,17 @@ fn gen_op(builder: &str, rng: &mut Rng) -> Step {
         "CoseKey" => match rng.below(7) {
             0 => {
                 if rng.bool() {
-                    o("kty", vec![Arg::S("int".into()), a_from(rng, KEY_TYPES)])
+                    o("kty", vec![Arg::S("int".into()), a_reg(rng, KEY_TYPES, all_key_types())])
                 } else {
                     o("kty", vec![Arg::S("text".into()), a_text(rng)])
                 }
             }
-            1 => o("key_type", vec![a_from(rng, KEY_TYPES)]),
+            1 => o("key_type", vec![a_reg(rng, KEY_TYPES, all_key_types())]),
             2 => o("key_id", vec![a_bytes(rng)]),
             3 => o("base_iv", vec![a_small(rng)]),
-            4 => o("algorithm", vec![a_from(rng, ALGS)]),
-            5 => o("add_key_op", vec![a_from(rng, KEY_OPS)]),
-            _ => o("param", vec![a_from(rng, LABELS), a_val(rng)]),
+            4 => o("algorithm", vec![a_reg(rng, ALGS, all_algs())]),
+            5 => o("add_key_op", vec![a_reg(rng, KEY_OPS, all_key_ops())]),
+            _ => o("param", vec![a_label(rng), a_val(rng)]),
         },
         "ClaimsSet" => match rng.below(10) {
             0 => o("issuer", vec![a_text(rng)]),
@@ -307,9 +381,9 @@ fn gen_op(builder: &str, rng: &mut Rng) -> Step {
             4 => o("not_before", gen_ts(rng)),
             5 => o("issued_at", gen_ts(rng)),
             6 => o("cwt_id", vec![a_bytes(rng)]),
-            7 => o("claim", vec![a_from(rng, CLAIM_NAMES), a_val(rng)]),
+            7 => o("claim", vec![a_reg(rng, CLAIM_NAMES, all_claim_names()), a_val(rng)]),
             8 => o("text_claim", vec![a_text(rng), a_val(rng)]),
-            _ => o("private_claim", vec![a_from(rng, PRIVATE_IDS), a_val(rng)]),
+            _ => o("private_claim", vec![if rng.chance(1, 3) { Arg::I(-65530 - rng.below(20) as i128) } else { a_from(rng, PRIVATE_IDS) }, a_val(rng)]),
         },
         "PartyInfo" => match rng.below(3) {
             0 => o("identity", vec![a_bytes(rng)]),
@@ -331,7 +405,7 @@ fn gen_op(builder: &str, rng: &mut Rng) -> Step {
             0 => o("party_u_info", vec![Arg::I(rng.below(party_palette().len()) as i128)]),
             1 => o("party_v_info", vec![Arg::I(rng.below(party_palette().len()) as i128)]),
             2 => o("supp_pub_info", vec![Arg::I(rng.below(supp_pub_palette().len()) as i128)]),
-            3 => o("algorithm", vec![a_from(rng, ALGS)]),
+            3 => o("algorithm", vec![a_reg(rng, ALGS, all_algs())]),
             _ => o("add_supp_priv_info", vec![a_small(rng)]),
         },
         _ => unreachable!(),
@@ -360,10 +434,10 @@ fn gen_ctor(builder: &str, rng: &mut Rng) -> Step {
         match rng.below(7) {
             0 => c("new", vec![]),
             1 => c("default", vec![]),
-            2 => c("new_ec2_pub_key", vec![a_from(rng, CURVES), a_small(rng), a_small(rng)]),
-            3 => c("new_ec2_pub_key_y_sign", vec![a_from(rng, CURVES), a_small(rng), Arg::I(rng.below(2) as i128)]),
-            4 => c("new_ec2_priv_key", vec![a_from(rng, CURVES), a_small(rng), a_small(rng), a_small(rng)]),
-            5 => c("new_symmetric_key", vec![a_small(rng)]),
+            2 => c("new_ec2_pub_key", vec![a_reg(rng, CURVES, all_curves()), a_bytes(rng), a_bytes(rng)]),
+            3 => c("new_ec2_pub_key_y_sign", vec![a_reg(rng, CURVES, all_curves()), a_bytes(rng), Arg::I(rng.below(2) as i128)]),
+            4 => c("new_ec2_priv_key", vec![a_reg(rng, CURVES, all_curves()), a_bytes(rng), a_bytes(rng), a_bytes(rng)]),
+            5 => c("new_symmetric_key", vec![a_bytes(rng)]),
             _ => c("new_okp_key", vec![]),
         }
     } else if rng.chance(1, 4) {
@@ -480,7 +554,7 @@ fn exec_header(t: &Trace) -> HResult<Option<Violation>> {
             }
             "value" => {
                 let l = s.i64(0)?;
-                let v = value_by_idx(s.usize(1)?)?;
+                let v = value_from_arg(s, 1)?;
                 let cv = v.to_value();
                 let pred = if (1..=7).contains(&l) { Pred::Refuse } else { Pred::Accept };
                 if pred == Pred::Accept {
@@ -490,7 +564,7 @@ fn exec_header(t: &Trace) -> HResult<Option<Violation>> {
             }
             "text_value" => {
                 let l = s.text(0)?.to_string();
-                let v = value_by_idx(s.usize(1)?)?;
+                let v = value_from_arg(s, 1)?;
                 let cv = v.to_value();
                 m.rest.push((MLabel::Text(l.clone()), v));
                 (Pred::Accept, ok(move |b: coset::HeaderBuilder| b.text_value(l, cv)), None)
@@ -503,7 +577,10 @@ fn exec_header(t: &Trace) -> HResult<Option<Violation>> {
     if !got.iv.is_empty() && !got.partial_iv.is_empty() {
         return Ok(Some(Violation::new("C19.iv-both", format!("iv={:?} partial_iv={:?}", got.iv, got.partial_iv))));
     }
-    Ok(cmp_header("", &m, &got))
+    if let Some(v) = cmp_header("", &m, &got) {
+        return Ok(Some(v));
+    }
+    Ok(enc_obs(built, m.to_coset()))
 }
 
 fn exec_signature(t: &Trace) -> HResult<Option<Violation>> {
@@ -531,7 +608,8 @@ fn exec_signature(t: &Trace) -> HResult<Option<Violation>> {
             x => return herr(format!("CoseSignature: unknown op {}", x)),
         }
     });
-    let got = MSignature::from_coset(&b.build());
+    let built = b.build();
+    let got = MSignature::from_coset(&built);
     if let Some(v) = cmp_protected("protected", &m.protected, &got.protected) {
         return Ok(Some(v));
     }
@@ -539,7 +617,7 @@ fn exec_signature(t: &Trace) -> HResult<Option<Violation>> {
         return Ok(Some(v));
     }
     cmp_field!("signature", m.signature, got.signature);
-    Ok(None)
+    Ok(enc_obs(built, m.to_coset()))
 }
 
 /// Common protected/unprotected setters for message builders.
@@ -645,7 +723,8 @@ fn exec_sign(t: &Trace) -> HResult<Option<Violation>> {
             }
         }
     });
-    let got = MSign::from_coset(&b.build());
+    let built = b.build();
+    let got = MSign::from_coset(&built);
     if let Some(v) = cmp_protected("protected", &m.protected, &got.protected) {
         return Ok(Some(v));
     }
@@ -654,7 +733,7 @@ fn exec_sign(t: &Trace) -> HResult<Option<Violation>> {
     }
     cmp_field!("payload", m.payload, got.payload);
     cmp_field!("signatures", m.signatures, got.signatures);
-    Ok(None)
+    Ok(enc_obs(built, m.to_coset()))
 }
 
 fn exec_sign1(t: &Trace) -> HResult<Option<Violation>> {
@@ -723,7 +802,8 @@ fn exec_sign1(t: &Trace) -> HResult<Option<Violation>> {
             }
         }
     });
-    let got = MSign1::from_coset(&b.build());
+    let built = b.build();
+    let got = MSign1::from_coset(&built);
     if let Some(v) = cmp_protected("protected", &m.protected, &got.protected) {
         return Ok(Some(v));
     }
@@ -732,7 +812,7 @@ fn exec_sign1(t: &Trace) -> HResult<Option<Violation>> {
     }
     cmp_field!("payload", m.payload, got.payload);
     cmp_field!("signature", m.signature, got.signature);
-    Ok(None)
+    Ok(enc_obs(built, m.to_coset()))
 }
 
 macro_rules! mac_like {
@@ -803,7 +883,7 @@ macro_rules! mac_like {
             if m != got {
                 return Ok(Some(field_diff_mac(&format!("{:?}", m), &format!("{:?}", got), &m.payload, &got.payload, &m.tag, &got.tag)));
             }
-            Ok(None)
+            Ok(enc_obs(built, m.to_coset()))
         }
     };
 }
@@ -884,7 +964,8 @@ fn exec_encrypt(t: &Trace) -> HResult<Option<Violation>> {
             }
         }
     });
-    let got = MEncrypt::from_coset(&b.build());
+    let built = b.build();
+    let got = MEncrypt::from_coset(&built);
     if let Some(v) = cmp_protected("protected", &m.protected, &got.protected) {
         return Ok(Some(v));
     }
@@ -893,7 +974,7 @@ fn exec_encrypt(t: &Trace) -> HResult<Option<Violation>> {
     }
     cmp_field!("ciphertext", m.ciphertext, got.ciphertext);
     cmp_field!("recipients", m.recipients, got.recipients);
-    Ok(None)
+    Ok(enc_obs(built, m.to_coset()))
 }
 
 fn exec_encrypt0(t: &Trace) -> HResult<Option<Violation>> {
@@ -934,7 +1015,8 @@ fn exec_encrypt0(t: &Trace) -> HResult<Option<Violation>> {
             }
         }
     });
-    let got = MEncrypt0::from_coset(&b.build());
+    let built = b.build();
+    let got = MEncrypt0::from_coset(&built);
     if let Some(v) = cmp_protected("protected", &m.protected, &got.protected) {
         return Ok(Some(v));
     }
@@ -942,7 +1024,7 @@ fn exec_encrypt0(t: &Trace) -> HResult<Option<Violation>> {
         return Ok(Some(v));
     }
     cmp_field!("ciphertext", m.ciphertext, got.ciphertext);
-    Ok(None)
+    Ok(enc_obs(built, m.to_coset()))
 }
 
 fn exec_recipient(t: &Trace) -> HResult<Option<Violation>> {
@@ -998,7 +1080,8 @@ fn exec_recipient(t: &Trace) -> HResult<Option<Violation>> {
             }
         }
     });
-    let got = MRecipient::from_coset(&b.build());
+    let built = b.build();
+    let got = MRecipient::from_coset(&built);
     if let Some(v) = cmp_protected("protected", &m.protected, &got.protected) {
         return Ok(Some(v));
     }
@@ -1007,7 +1090,7 @@ fn exec_recipient(t: &Trace) -> HResult<Option<Violation>> {
     }
     cmp_field!("ciphertext", m.ciphertext, got.ciphertext);
     cmp_field!("recipients", m.recipients, got.recipients);
-    Ok(None)
+    Ok(enc_obs(built, m.to_coset()))
 }
 
 fn exec_key(t: &Trace) -> HResult<Option<Violation>> {
@@ -1103,7 +1186,7 @@ fn exec_key(t: &Trace) -> HResult<Option<Violation>> {
             }
             "param" => {
                 let l = s.i64(0)?;
-                let v = value_by_idx(s.usize(1)?)?;
+                let v = value_from_arg(s, 1)?;
                 let cv = v.to_value();
                 // common key parameters 1..=5 are refused; 0 (IANA "Reserved") is left open by the
                 // property statement, both outcomes are accepted
@@ -1122,14 +1205,15 @@ fn exec_key(t: &Trace) -> HResult<Option<Violation>> {
             x => return herr(format!("CoseKey: unknown op {}", x)),
         }
     });
-    let got = MKey::from_coset(&b.build());
+    let built = b.build();
+    let got = MKey::from_coset(&built);
     cmp_field!("kty", m.kty, got.kty);
     cmp_field!("key_id", m.key_id, got.key_id);
     cmp_field!("alg", m.alg, got.alg);
     cmp_field!("key_ops", m.key_ops, got.key_ops);
     cmp_field!("base_iv", m.base_iv, got.base_iv);
     cmp_field!("params", m.params, got.params);
-    Ok(None)
+    Ok(enc_obs(built, m.to_coset()))
 }
 
 fn exec_claims(t: &Trace) -> HResult<Option<Violation>> {
@@ -1179,7 +1263,7 @@ fn exec_claims(t: &Trace) -> HResult<Option<Violation>> {
             "claim" => {
                 let n = s.i64(0)?;
                 let name = reg_or_herr!(iana::CwtClaimName, n)?;
-                let v = value_by_idx(s.usize(1)?)?;
+                let v = value_from_arg(s, 1)?;
                 let cv = v.to_value();
                 let pred = if (1..=7).contains(&n) { Pred::Refuse } else { Pred::Accept };
                 if pred == Pred::Accept {
@@ -1189,14 +1273,14 @@ fn exec_claims(t: &Trace) -> HResult<Option<Violation>> {
             }
             "text_claim" => {
                 let x = s.text(0)?.to_string();
-                let v = value_by_idx(s.usize(1)?)?;
+                let v = value_from_arg(s, 1)?;
                 let cv = v.to_value();
                 m.rest.push((MRegP::Text(x.clone()), v));
                 (Pred::Accept, ok(move |b: B| b.text_claim(x, cv)), None)
             }
             "private_claim" => {
                 let id = s.i64(0)?;
-                let v = value_by_idx(s.usize(1)?)?;
+                let v = value_from_arg(s, 1)?;
                 let cv = v.to_value();
                 // private use: integers below -65536
                 let pred = if id < -65536 { Pred::Accept } else { Pred::Refuse };
@@ -1208,7 +1292,8 @@ fn exec_claims(t: &Trace) -> HResult<Option<Violation>> {
             x => return herr(format!("ClaimsSet: unknown op {}", x)),
         }
     });
-    let got = MClaims::from_coset(&b.build());
+    let built = b.build();
+    let got = MClaims::from_coset(&built);
     cmp_field!("issuer", m.issuer, got.issuer);
     cmp_field!("subject", m.subject, got.subject);
     cmp_field!("audience", m.audience, got.audience);
@@ -1217,7 +1302,7 @@ fn exec_claims(t: &Trace) -> HResult<Option<Violation>> {
     cmp_field!("issued_at", m.issued_at, got.issued_at);
     cmp_field!("cwt_id", m.cwt_id, got.cwt_id);
     cmp_field!("rest", m.rest, got.rest);
-    Ok(None)
+    Ok(enc_obs(built, m.to_coset()))
 }
 
 fn exec_party(t: &Trace) -> HResult<Option<Violation>> {
@@ -1248,11 +1333,12 @@ fn exec_party(t: &Trace) -> HResult<Option<Violation>> {
             x => return herr(format!("PartyInfo: unknown op {}", x)),
         }
     });
-    let got = MPartyInfo::from_coset(&b.build());
+    let built = b.build();
+    let got = MPartyInfo::from_coset(&built);
     cmp_field!("identity", m.identity, got.identity);
     cmp_field!("nonce", m.nonce, got.nonce);
     cmp_field!("other", m.other, got.other);
-    Ok(None)
+    Ok(enc_obs(built, m.to_coset()))
 }
 
 fn exec_supp(t: &Trace) -> HResult<Option<Violation>> {
@@ -1280,13 +1366,14 @@ fn exec_supp(t: &Trace) -> HResult<Option<Violation>> {
             x => return herr(format!("SuppPubInfo: unknown op {}", x)),
         }
     });
-    let got = MSuppPubInfo::from_coset(&b.build());
+    let built = b.build();
+    let got = MSuppPubInfo::from_coset(&built);
     cmp_field!("key_data_length", m.key_data_length, got.key_data_length);
     if let Some(v) = cmp_protected("protected", &m.protected, &got.protected) {
         return Ok(Some(v));
     }
     cmp_field!("other", m.other, got.other);
-    Ok(None)
+    Ok(enc_obs(built, m.to_coset()))
 }
 
 /// Structural equality of two refcbor trees, ignoring offsets and encoding widths.
@@ -1431,7 +1518,7 @@ impl Engine for C19 {
     fn info(&self) -> EngineInfo {
         EngineInfo {
             level: "exploration",
-            rule: "Each run is one seeded history: a constructor (new/default/named key constructor) followed by 0-16 calls drawn uniformly from every public method of one of the 14 builders, arguments from palettes that include empty, boundary and reserved values; the history is executed on the real builder and on the field-map model and every public field of build() is compared. A case is non-trivial when it has at least one call after the constructor; distinct = distinct (builder, constructor, call sequence with arguments) by 64-bit hash of the materialised trace.",
+            rule: "Each run is one seeded history: a constructor (new/default/named key constructor) followed by 0-16 calls (1 history in 50: 17-64 calls, half of them repeating one method) drawn uniformly from every public method of one of the 14 builders, arguments from palettes that include empty, boundary and reserved values, mixed with every registry value found by scanning from_i64 over [-70000, 70000], random labels and byte strings of arbitrary and typical key sizes; the history is executed on the real builder and on the field-map model and every public field of build() is compared, and the built value's encoding is compared with the encoding of the same value assembled from the model through struct literals (so state that is not visible in the public fields still shows). A case is non-trivial when it has at least one call after the constructor; distinct = distinct (builder, constructor, call sequence with arguments) by 64-bit hash of the materialised trace.",
             distinct_classes: &["call-name sequences", "adjacent ordered pairs of methods per builder", "adjacent ordered triples of methods per builder", "(builder, method) reached"],
             assumptions: &[
                 "the model encodes the doc comments and the property statement (Appendix A of DESIGN.md); `param(0, ..)` is left open (either outcome accepted)",
@@ -1460,9 +1547,29 @@ impl Engine for C19 {
         let builder = BUILDERS[rng.below(BUILDERS.len())];
         t.set_meta("builder", builder);
         t.push(gen_ctor(builder, &mut rng));
-        let n = rng.range(0, 16);
-        for _ in 0..n {
-            t.push(gen_op(builder, &mut rng));
+        // 1 history in 50 is long (17-64 calls) and half of those repeat one method many times
+        if rng.chance(1, 50) {
+            let n = rng.range(17, 64);
+            let repeat = rng.bool();
+            let first = gen_op(builder, &mut rng);
+            for i in 0..n {
+                let mut op = gen_op(builder, &mut rng);
+                if repeat && i % 4 != 3 {
+                    // same method, fresh arguments
+                    for _ in 0..64 {
+                        if op.name == first.name {
+                            break;
+                        }
+                        op = gen_op(builder, &mut rng);
+                    }
+                }
+                t.push(op);
+            }
+        } else {
+            let n = rng.range(0, 16);
+            for _ in 0..n {
+                t.push(gen_op(builder, &mut rng));
+            }
         }
         t
     }
